@@ -134,6 +134,7 @@ for _n in ["neg", "pos", "invert"]:
 def r(truth=True):
     """a fresh recorder"""
     x = fresh()
+    truth = bool(truth)
     x.truth = truth
     LOG.append(("new", x.i, truth))
     return x
